@@ -13,6 +13,10 @@ func init() {
 		fs, ev := unit.CheckC19Unit(run)
 		rfs, rev, inc := rtPart(run, "stress", 24, 800, map[string]int{"C19 election actions judged": 300})
 		fs = append(fs, rfs...)
+		cfs, cev, cinc := rtPart(run, "ctx", 64, 3000, map[string]int{"C19 current triggers judged": 8})
+		fs = append(fs, cfs...)
+		inc = append(inc, cinc...)
+		ev["rt_ctx"] = cev
 		for k, v := range rev {
 			ev[k] = v
 		}
@@ -42,7 +46,7 @@ func init() {
 func init() {
 	registry["C15"] = func(run *harness.Run) int {
 		fs, ev, inc := unit.CheckC15Registry(run)
-		rfs, rev, rinc := rtPart(run, "ctx", 64, 3000, map[string]int{"C15 contexts captured": 20, "C15 leave stimuli judged": 20})
+		rfs, rev, rinc := rtPart(run, "ctx", 64, 3000, map[string]int{"C15 contexts captured": 20, "C15 leave stimuli judged": 20, "C15 construction-time parkings judged": 5})
 		fs = append(fs, rfs...)
 		inc = append(inc, rinc...)
 		for k, v := range rev {
